@@ -15,9 +15,9 @@ Lemmas:
      (method name, arguments).
   4. sortedness of what is handed to the tail (what the reader's binary searches need): the class records the tail emits are STRICTLY sorted by the
      obfuscated names the string section resolves, and within every collected class the member records are sorted by resolved method name
-     (groups of a BTreeMap in key order, flattened: `lemma_flat_groups_sorted`). Not written: the (name, params) order of the by-params records,
-     string interning among a class's members.
-ASSUMED: BTreeMap<&str, V> iterates in strictly ascending key order and `vals` are its values in that order (std);
+     (groups of a BTreeMap in key order, flattened: `lemma_flat_groups_sorted`), the by-params records by (resolved name, resolved parameters).
+     Not written: string interning among a class's members, `wf_member` for every record.
+ASSUMED: BTreeMap<&str, V> and BTreeMap<(&str, &str), V> iterate in strictly ascending (lexicographic) key order and `vals` are the values in that order (std);
 the string-table round trip of watto for the strings of the records (`resolves`: an offset handed out reads back the string from the
 final table's bytes; offsets below 2^32-1).
 """
@@ -531,6 +531,82 @@ pub proof fn lemma_members_of_every_collected_class_are_sorted_by_name<'s>(ts: S
         assert(seq_cmp(ks[g]@, ks[h]@) == Ordering::Less);
     }
     lemma_flat_groups_sorted(sb, groups, names);
+}
+
+
+// ---- the by-params records of every collected class are sorted by (resolved method name, resolved parameter string) ----
+pub uninterp spec fn keys2_of<'a, V>(m: BTreeMap<(&'a str, &'a str), V>) -> Seq<(&'a str, &'a str)>;
+pub open spec fn lex2(a: Ordering, b: Ordering) -> Ordering { if a != Ordering::Equal { a } else { b } }
+// ASSUMED (std): BTreeMap<(&str, &str), V> iterates in strictly ascending lexicographic key order; `vals` are the values in that order
+#[verifier::external_body]
+pub proof fn axiom_btree_pair_order<'a, V>(m: BTreeMap<(&'a str, &'a str), V>)
+    ensures
+        keys2_of(m).len() == vals(m).len(),
+        forall|i: int| 0 <= i < keys2_of(m).len() ==> bmap(m).contains_key(#[trigger] keys2_of(m)[i]) && bmap(m)[keys2_of(m)[i]] == vals(m)[i],
+        forall|i: int, j: int| 0 <= i < j < keys2_of(m).len() ==>
+            lex2(seq_cmp((#[trigger] keys2_of(m)[i]).0@, (#[trigger] keys2_of(m)[j]).0@), seq_cmp(keys2_of(m)[i].1@, keys2_of(m)[j].1@)) == Ordering::Less,
+{}
+pub open spec fn params_of(sb: Seq<u8>, m: Member) -> Seq<char> { match tbl(sb, m.params_offset) { Some(s) => s, None => Seq::empty() } }
+pub open spec fn sorted_by_name_and_params(sb: Seq<u8>, ms: Seq<Member>) -> bool {      // the reader's `members_sorted2` (cache_model.rs), same text
+    (forall|i: int| 0 <= i < ms.len() ==> tbl(sb, (#[trigger] ms[i]).obfuscated_name_offset) is Some)
+    && (forall|i: int, j: int| 0 <= i < j < ms.len() ==>
+            lex2(seq_cmp(name_of(sb, #[trigger] ms[i]), name_of(sb, #[trigger] ms[j])), seq_cmp(params_of(sb, ms[i]), params_of(sb, ms[j]))) != Ordering::Greater)
+}
+pub proof fn lemma_flat_groups_sorted2(sb: Seq<u8>, groups: Seq<Vec<Member>>, names: Seq<Seq<char>>, params: Seq<Seq<char>>)
+    requires groups.len() == names.len(), groups.len() == params.len(),
+        forall|g: int, i: int| 0 <= g < groups.len() && 0 <= i < groups[g]@.len() ==>
+            tbl(sb, (#[trigger] groups[g]@[i]).obfuscated_name_offset) == Some(names[g]) && tbl(sb, groups[g]@[i].params_offset) == Some(params[g]),
+        forall|g: int, h: int| 0 <= g < h < names.len() ==> lex2(seq_cmp(#[trigger] names[g], #[trigger] names[h]), seq_cmp(params[g], params[h])) == Ordering::Less,
+    ensures sorted_by_name_and_params(sb, flat(groups)),
+{
+    let f = flat(groups);
+    assert forall|x: int| 0 <= x < f.len() implies tbl(sb, (#[trigger] f[x]).obfuscated_name_offset) == Some(names[group_of(groups, x)]) && tbl(sb, f[x].params_offset) == Some(params[group_of(groups, x)]) by {
+        lemma_group_of(groups, x);
+        let g = group_of(groups, x);
+        let i = choose|i: int| 0 <= i < groups[g]@.len() && f[x] == #[trigger] groups[g]@[i];
+        assert(tbl(sb, groups[g]@[i].obfuscated_name_offset) == Some(names[g]));
+    }
+    assert forall|x: int, y: int| 0 <= x < y < f.len() implies
+        lex2(seq_cmp(name_of(sb, #[trigger] f[x]), name_of(sb, #[trigger] f[y])), seq_cmp(params_of(sb, f[x]), params_of(sb, f[y]))) != Ordering::Greater by {
+        lemma_group_of(groups, x); lemma_group_of(groups, y); lemma_group_of_monotone(groups, x, y);
+        let g = group_of(groups, x); let h = group_of(groups, y);
+        assert(name_of(sb, f[x]) == names[g] && name_of(sb, f[y]) == names[h] && params_of(sb, f[x]) == params[g] && params_of(sb, f[y]) == params[h]);
+        if g == h { axiom_seq_cmp_total(names[g], names[g]); axiom_seq_cmp_total(params[g], params[g]); }
+    }
+}
+pub proof fn lemma_by_params_records_of_every_collected_class_are_sorted<'s>(ts: Seq<StringTable>, recs: Seq<ProguardRecord<'s>>, classes: BTreeMap<&'s str, ClassInProgress<'s>>, key: &'s str)
+    requires
+        tables_ok(ts, recs, recs.len() as int), recs_names_ok(ts[recs.len() as int], recs),
+        abs_done(bmap(classes)) == w_flush(w_run(ts, recs, recs.len() as int).done, w_run(ts, recs, recs.len() as int).cur),   // unit u14
+        bmap(classes).contains_key(key),
+    ensures
+        /*@L:by_params_records_of_a_class_are_sorted_by_resolved_name_and_parameters:C09,C02,C03*/
+        sorted_by_name_and_params(table_bytes(ts[recs.len() as int]), flat(vals(bmap(classes)[key].members_by_params))),
+{
+    let nn = recs.len() as int; let tn = ts[nn]; let sb = table_bytes(tn);
+    lemma_names_run(ts, recs, nn);
+    let ws = w_run(ts, recs, nn); let w = w_flush(ws.done, ws.cur);
+    let c = bmap(classes)[key];
+    assert(abs_done(bmap(classes)).contains_key(key) && abs_done(bmap(classes))[key] == abs_cip(c));
+    assert(w.contains_key(key));
+    if ws.cur.name@.len() > 0 && key == ws.cur.name { assert(w[key] == ws.cur); } else { assert(ws.done.contains_key(key)); assert(w[key] == ws.done[key]); }
+    assert(cip_names_ok(tn, w[key]));
+    axiom_btree_pair_order(c.members_by_params);
+    let groups = vals(c.members_by_params); let ks = keys2_of(c.members_by_params);
+    let names = Seq::new(ks.len(), |g: int| ks[g].0@);
+    let params = Seq::new(ks.len(), |g: int| ks[g].1@);
+    assert forall|g: int, i: int| 0 <= g < groups.len() && 0 <= i < groups[g]@.len() implies
+        tbl(sb, (#[trigger] groups[g]@[i]).obfuscated_name_offset) == Some(names[g]) && tbl(sb, groups[g]@[i].params_offset) == Some(params[g]) by {
+        let k = ks[g];
+        assert(bmap(c.members_by_params).contains_key(k) && bmap(c.members_by_params)[k] == groups[g]);
+        assert((abs_cip(c).by)(k) == vec_at(c.members_by_params, k));
+        assert((w[key].by)((k.0, k.1)) == groups[g]@);
+        assert(tbl(sb, (w[key].by)((k.0, k.1))[i].obfuscated_name_offset) == Some(k.0@));
+    }
+    assert forall|g: int, h: int| 0 <= g < h < names.len() implies lex2(seq_cmp(#[trigger] names[g], #[trigger] names[h]), seq_cmp(params[g], params[h])) == Ordering::Less by {
+        assert(lex2(seq_cmp(ks[g].0@, ks[h].0@), seq_cmp(ks[g].1@, ks[h].1@)) == Ordering::Less);
+    }
+    lemma_flat_groups_sorted2(sb, groups, names, params);
 }
 
 // the hypotheses are satisfiable whenever the table resolves the record's strings (no contradiction hidden in the requires)
